@@ -17,7 +17,7 @@ CONFIG = {
     },
     "harness": "h_c08",
     "level": "proof",
-    "n": {"quick": 1000, "thorough": 20000},
+    "n": {"quick": 800, "thorough": 20000},
     "shard": 120,
     "extra_proof_files": ["PSga", "PMeta", "PLink"],
     "rule": "designed cases (boundaries End-1/End/Start, truncated group with and without successor, Min/MaxNanoTime and the zero time, "
@@ -26,7 +26,9 @@ CONFIG = {
             "cases also hand-made possibly overlapping groups = malformed stream) with 0-5 data nodes, replication 0-3, shard durations 1ns..100y, "
             "infinite or finite policy; batch of 0-8 points over 5 measurements x 7 tag sets, 50% of timestamps on group boundaries/truncation "
             "times +-1 and the extreme timestamps, duplicates, cut-off +-2s..1h; then a shuffle, 1-2 single points and a random subset of the "
-            "batch re-run on a copy of the resulting metadata. distinct = distinct input description; non-trivial = at least one point mapped",
+            "batch re-run on a copy of the resulting metadata. In 40% of the cases the metadata goes through Data.MarshalBinary/UnmarshalBinary "
+            "before MapShards (what a data node's client cache holds) and the round trip is checked to be the identity on the routing fields "
+            "(kind rt; biased to groups ending exactly at the Unix epoch and starting at the clamped MinInt64). distinct = distinct input description; non-trivial = at least one point mapped",
     "trusted_base": [
         "C08: time.Time Truncate/Add/Before/After are modelled as exact integer arithmetic on nanoseconds since the epoch (no wrap in the "
         "ranges reachable from int64 timestamps and int64 durations); IsZero as equality with the year-1 instant",
